@@ -5,5 +5,6 @@
 EXTENDS MC_Dispatcher
 Fam == Family({<<2, 1>>, <<1, 1, 1>>, <<2, 2>>, <<3, 1>>, <<2, 1, 1>>}, MSeqs(2), {0, 1, 2})
        \cup Family({<<2, 1>>, <<1, 1, 1>>, <<3>>}, MSeqs(3), {0, 1, 3})
-Filt == FiltNone \cup FiltSingles \cup FiltPairs \cup FiltTriples
+Filt == FiltNone \cup FiltSingles \cup FiltDefault
+        \cup {<<"idle", "dom">>, <<"immops", "immmach">>, <<"immmach", "dom">>, <<"dom", "idle", "immops">>, <<"idle", "immops", "dom">>}
 =============================================================================
